@@ -97,6 +97,9 @@ func (p *c08Proto) render() []byte {
 		switch {
 		case i%5 == 3:
 			sb.WriteString("import public " + c08Quote(imp) + ";\n")
+		case i%4 == 1:
+			// a weak import is an import: the module that owns the file is a dependency all the same
+			sb.WriteString("import weak " + c08Quote(imp) + ";\n")
 		case i%7 == 5:
 			sb.WriteString("import   " + c08Quote(imp) + "  ;  // trailing\n")
 		default:
